@@ -951,6 +951,8 @@ fn corpus() -> Vec<(Pat, Vec<u8>, Option<usize>)> {
         // known finding: for a greedy regexp the LONGEST end of a chain piece is kept: /aba?a.*abX/s misses abaabX
         (Pat::Regexp(Re::Cat(vec![lit(b"ab"), Re::Rep(Box::new(lit(b"a")), 0, Some(1), true), lit(b"a"), Re::Rep(Box::new(any()), 0, None, true), lit(b"abX")]),
                      rm(&|m| { m.dotall = true; })), b"abaabX".to_vec(), None),
+        // known finding: base64wide drops a '=' at an even offset anywhere in the window, not only trailing padding
+        (Pat::Text(b"foob".to_vec(), tm(&|m| { m.b64wide = Some(None); })), widen(b"..Zm9v=YgA.."), None),
         // xor + fullword (differences.md)
         (Pat::Text(b"mississippi".to_vec(), tm(&|m| { m.xor = Some((1, 1)); m.xor_explicit = true; m.fullword = true; })), b"{lhrrhrrhqqh} !lhrrhrrhqqh!".to_vec(), None),
     ]
